@@ -683,6 +683,8 @@ class SX:
                     continue
                 res.extend(self.assign(s.target, r[1], r[0], frame, s.lineno))
             return res
+        if isinstance(s, ast.While) and self.eval_comprehensions:
+            return self.while_concrete(s, st, frame)
         if isinstance(s, ast.Match) and self.eval_comprehensions:
             return self.match_stmt(s, st, frame)
         if isinstance(s, ast.For) and self.eval_comprehensions:
@@ -1040,6 +1042,33 @@ class SX:
                 out = self.binop(n.op, l, rr, s, n)
                 res.append(out if isinstance(out, Outcome) else (s, out))
             return res
+        if isinstance(n, ast.BoolOp) and self.eval_comprehensions:
+            # Python value semantics: `a or b` is a when a is truthy, else b (objects, not just truth values)
+            is_or = isinstance(n.op, ast.Or)
+            res, cur = [], [st]
+            for i, vn in enumerate(n.values):
+                nxt = []
+                for s_ in cur:
+                    for r in self.eval_x(vn, s_, frame):
+                        if isinstance(r, Outcome):
+                            res.append(r)
+                            continue
+                        s2, val = r
+                        if i == len(n.values) - 1:
+                            res.append((s2, val))
+                            continue
+                        t = self.truth(val)
+                        if isinstance(t, bool):
+                            (res.append((s2, val)) if t == is_or else nxt.append(s2))
+                            continue
+                        a, b = s2.with_guard(t), s2.with_guard(t.negate())
+                        stop, go = (a, b) if is_or else (b, a)
+                        if stop is not None:
+                            res.append((stop, val))
+                        if go is not None:
+                            nxt.append(go)
+                cur = nxt
+            return res
         if isinstance(n, ast.BoolOp):
             tr, fa, rs = self.branch(n, st, frame)
             return rs + [(s, Bv(True)) for s in tr] + [(s, Bv(False)) for s in fa]
@@ -1165,7 +1194,7 @@ class SX:
 
     def for_unrolled(self, s: ast.For, st, frame):
         """for x in <concrete list>: unrolled; None when the iterable is not a concrete list"""
-        if s.orelse or not isinstance(s.target, ast.Name):
+        if s.orelse:
             return None
         outs = []
         for r in self.eval_x(s.iter, st, frame):
@@ -1179,9 +1208,8 @@ class SX:
             for item in it.items:
                 nxt = []
                 for sc in cur:
-                    s2 = sc.copy()
-                    s2.env[s.target.id] = item
-                    for o in self.block(s.body, [s2], frame):
+                    bound = [o.state for o in self.assign(s.target, item, sc, frame, s.lineno) if o.kind == 'fall']
+                    for o in self.block(s.body, bound, frame):
                         if o.kind in ('fall', 'continue'):
                             nxt.append(o.state)
                         elif o.kind == 'break':
@@ -1191,6 +1219,32 @@ class SX:
                 cur = nxt
             outs.extend(Outcome(sc, 'fall') for sc in cur)
         return outs
+
+    def while_concrete(self, s: ast.While, st, frame, bound=64):
+        """while over concrete data: unrolled as long as the test is decided without a new assumption"""
+        if s.orelse:
+            raise CannotDecide('while/else')
+        outs, cur = [], [st]
+        for _ in range(bound):
+            nxt = []
+            for sc in cur:
+                tr, fa, rs = self.branch(s.test, sc, frame)
+                outs.extend(rs)
+                for x in tr + fa:
+                    if len(x.guards) != len(sc.guards):
+                        raise CannotDecide(f'while test `{ast.unparse(s.test)[:50]}` is not decided by the concrete data')
+                outs.extend(Outcome(x, 'fall') for x in fa)
+                for o in (self.block(s.body, tr, frame) if tr else []):
+                    if o.kind in ('fall', 'continue'):
+                        nxt.append(o.state)
+                    elif o.kind == 'break':
+                        outs.append(Outcome(o.state, 'fall'))
+                    else:
+                        outs.append(o)
+            cur = nxt
+            if not cur:
+                return outs
+        raise CannotDecide(f'while loop at line {s.lineno} does not terminate within {bound} iterations on the concrete data')
 
     def match_stmt(self, s: ast.Match, st, frame):
         res = []
@@ -1649,6 +1703,10 @@ class SX:
                     member = True if l.unit.lit is None else l.unit.lit in self.tables.table_of(fam)
                 if member is not None:
                     return Bv(member != isinstance(op, ast.NotIn))
+            if self.eval_comprehensions and isinstance(l, Sv) and isinstance(r, (Tv, Dv)):
+                keys = list(r.items) if isinstance(r, Dv) else [i.s if isinstance(i, Sv) else None for i in r.items]
+                if None not in keys:
+                    return Bv((l.s in keys) != isinstance(op, ast.NotIn))
             g = G('in', (self.show(l), self.show(r)))
             return Bsym(g.negate() if isinstance(op, ast.NotIn) else g)
         num_l = isinstance(l, (N, Dyn))
@@ -1701,6 +1759,8 @@ class SX:
                 if c == 1 and len(mono) == 1 and mono[0][1] == 1 and '#' not in mono[0][0]:
                     return mono[0][0]
             return None
+        if isinstance(v, Ov) and v.exact:
+            return None          # an object of exactly known class is an object
         if isinstance(v, (Ov, Seq)):
             return v.path
         if isinstance(v, (Unk,)):
@@ -1718,6 +1778,13 @@ class SX:
                 return base.items[i]
             except IndexError:
                 raise CannotDecide('index out of range')
+        if isinstance(base, Tv) and isinstance(idx, Unk) and idx.text.startswith('slice:') and self.eval_comprehensions:
+            parts = idx.text[6:].split(':')
+            try:
+                sl = slice(*[int(x) if x.strip() else None for x in parts])
+            except ValueError:
+                raise CannotDecide(f'slice {idx.text[6:]} of a concrete list')
+            return Tv(list(base.items[sl]), base.kind)
         if isinstance(base, Dv) and isinstance(idx, Sv):
             if idx.s in base.items:
                 return base.items[idx.s]
@@ -1911,7 +1978,7 @@ class SX:
             return self.apply_name(n, f.id, args, kwargs, st, frame)
         attr = f.attr
         # numpy / math namespaces
-        if recv is not None and isinstance(recv, Fv) and recv.name in ('np', 'numpy', 'math'):
+        if recv is not None and isinstance(recv, Fv) and recv.name in ('np', 'numpy', 'math', 'itertools', 'collections'):
             return self.apply_name(n, attr, args, kwargs, st, frame)
         if isinstance(recv, Q):
             return self.quantity_method(n, recv, attr, args, kwargs, st, frame)
@@ -1926,6 +1993,19 @@ class SX:
                 return [(st, recv)]
         if isinstance(recv, (N,)) and attr == 'take':
             return [(st, recv)]
+        if self.eval_comprehensions and isinstance(recv, Dv) and attr in ('items', 'values', 'keys') and not args:
+            if attr == 'items':
+                return [(st, Tv([Tv([Sv(k), v], 'tuple') for k, v in recv.items.items()]))]
+            return [(st, Tv(list(recv.items.values()) if attr == 'values' else [Sv(k) for k in recv.items]))]
+        if self.eval_comprehensions and isinstance(recv, Tv) and attr == 'count' and len(args) == 1 and isinstance(args[0], Sv) \
+                and all(isinstance(i, Sv) for i in recv.items):
+            return [(st, N(Rat.const(sum(1 for i in recv.items if i.s == args[0].s)), 'int'))]
+        if isinstance(recv, Tv) and attr == 'add' and self.eval_comprehensions and len(args) == 1 and isinstance(args[0], Sv) \
+                and isinstance(f.value, ast.Name) and isinstance(st.env.get(f.value.id), Tv):
+            s2 = st.copy()
+            if not any(isinstance(i, Sv) and i.s == args[0].s for i in recv.items):
+                s2.env[f.value.id] = Tv(list(recv.items) + [args[0]], recv.kind)
+            return [(s2, NoneV())]
         if isinstance(recv, Tv) and attr == 'append' and self.eval_comprehensions and len(args) == 1 \
                 and isinstance(f.value, ast.Name) and isinstance(st.env.get(f.value.id), Tv):
             s2 = st.copy()
@@ -1987,7 +2067,7 @@ class SX:
             if name == 'len' and len(args) == 1:
                 return [(st, N(Rat.const(len(items)), 'int'))]
             if name in ('list', 'tuple', 'iter', 'reversed', 'sorted') and len(args) == 1 and name != 'sorted':
-                return [(st, Tv(list(items) if name != 'reversed' else list(reversed(items))))]
+                return [(st, Tv(list(items) if name != 'reversed' else list(reversed(items)), 'tuple' if name == 'tuple' else 'list'))]
             if name == 'sum' and len(args) == 1:
                 t = Rat.const(0)
                 for i in items:
@@ -2004,6 +2084,34 @@ class SX:
                 if len(args) == 2:
                     return [(st, args[1])]
                 return [Outcome(st, 'raise', 'StopIteration', n.lineno)]
+        if self.eval_comprehensions and len(args) == 1 and isinstance(args[0], Tv) and name in ('Counter', 'set', 'frozenset', 'sorted', 'groupby') \
+                and all(isinstance(i, Sv) for i in args[0].items):
+            names = [i.s for i in args[0].items]
+            if name == 'Counter':
+                d = {}
+                for x in names:
+                    d[x] = d.get(x, 0) + 1
+                return [(st, Dv({k: N(Rat.const(c), 'int') for k, c in d.items()}))]
+            if name in ('set', 'frozenset'):
+                return [(st, Tv([Sv(x) for x in dict.fromkeys(names)], 'set'))]
+            if name == 'sorted':
+                return [(st, Tv([Sv(x) for x in sorted(names)]))]
+            if name == 'groupby':
+                groups = []
+                for x in names:
+                    if groups and groups[-1][0] == x:
+                        groups[-1][1].append(Sv(x))
+                    else:
+                        groups.append((x, [Sv(x)]))
+                return [(st, Tv([Tv([Sv(k), Tv(g)], 'tuple') for k, g in groups]))]
+        if self.eval_comprehensions and name == 'zip' and args and all(isinstance(a, Tv) for a in args):
+            return [(st, Tv([Tv(list(t), 'tuple') for t in zip(*[a.items for a in args])]))]
+        if self.eval_comprehensions and name == 'enumerate' and len(args) == 1 and isinstance(args[0], Tv):
+            return [(st, Tv([Tv([N(Rat.const(i), 'int'), x], 'tuple') for i, x in enumerate(args[0].items)]))]
+        if self.eval_comprehensions and name == 'range' and args and all(isinstance(a, N) and a.term.is_const() for a in args):
+            return [(st, Tv([N(Rat.const(i), 'int') for i in range(*[int(a.term.const_value()) for a in args])]))]
+        if self.eval_comprehensions and name in ('set', 'list', 'dict') and not args:
+            return [(st, Tv([], 'set' if name == 'set' else 'list') if name != 'dict' else Dv({}))]
         if self.eval_comprehensions and name == 'filter' and len(args) == 2 and isinstance(args[1], Tv):
             if isinstance(args[0], NoneV):
                 ts = [(i, self.truth(i)) for i in args[1].items]
